@@ -5,7 +5,7 @@ import io
 from codec_common import SPELLINGS, PACKED, BINARY, DISPLAY, FLOAT4, FLOAT8, canon, enc_packed, enc_zoned
 from layout_common import gen_tree, print_copybook, assign_names, tree_sx, schema_sx
 
-GEN = ["JsonTypeParams", "EstructParams", "Cp037", "ConversionParams"]
+GEN = ["JsonTypeParams", "EstructParams", "Cp037", "ConversionParams", "ConversionBodyParams"]
 RULE = ("field: EVERY (13 USAGE spellings x unsigned/signed x (m,n) with 1<=m+n<=18 x {digit runs written out, 9(m), 9(n), both}) copybook through "
         "schema_iter (type, contentEncoding, conversion, minLength, maxLength of the field), the same field through "
         "JSONSchemaMakerExtendedVocabulary and type(EBCDIC().nav(...).name(f).value()) on a record holding the mainframe encoding of a random value "
